@@ -333,6 +333,30 @@ def h_same_number(eng, ff, variant):
         eng.check(And(Implies(below, prot), Implies(Not(below), not prot)), f"{tag}-follows-its-own-pka", note=f"{variant}: {r} protonated={prot}: it does not follow the pKa PROPKA reported for it")
 
 
+def h_ph_reaches_titration(eng, ff):
+    """the real main_driver (transform_arguments, non_trivial) in the recording environment of flow.py with --with-ph a
+    symbolic real: the pH compared with the pKa values (second argument of apply_pka_values) IS the requested pH - not a
+    rounded, clamped or defaulted one (round 6: a pH rounded to two decimals in option handling flips groups whose pKa
+    lies within 0.005 of it)"""
+    from . import flow
+
+    w = flow.World(eng, "r", False, {}, [])
+    opts = flow.symbolic_options(eng, fixed=dict(ff=ff, pka=1, ligand=0), formatting=dict(whitespace=False, keep_chain=False, include_header=False, ffout=0, pdb_output=0, apbs_input=0))
+    ph = opts["ph"]
+    eng.assume(And(ph >= 0, ph <= 14))
+    exc = flow.run_driver(w, opts)
+    calls = [(a, k) for n, a, k in w.raw if n == "bm.apply_pka_values"]
+    propka_ran = any(n == "run_propka" for n, _a, _k in w.raw)
+    if not calls and (exc is not None or not propka_ran):
+        eng.note(f"no titration in this run ({type(exc).__name__ if exc is not None else 'options switch it off'})")
+        eng.check(True, "no-titration-in-this-run")
+        return
+    eng.check(len(calls) == 1, "titration-applied-once", note=f"apply_pka_values called {len(calls)} times in a run that called PROPKA")
+    for a, k in calls:
+        got = a[1] if len(a) > 1 else k.get("ph")
+        eng.check(core.same(got, ph), "titration-uses-the-requested-ph", note="the pH handed to apply_pka_values is not the value given with --with-ph")
+
+
 def obligations(tier):
     obs = []
     for ff in FFS:
@@ -360,6 +384,8 @@ def obligations(tier):
                 obs.append(Obligation(f"numbering-{ff}-{group}-start{start}", h_titration, dict(ff=ff, ffout=None, group=group, position="internal", start=start), group="titration", time_cap=900))
         for variant in ("insertion-code", "two-chains"):
             obs.append(Obligation(f"same-number-{variant}-{ff}", h_same_number, dict(ff=ff, variant=variant), group="same-number", time_cap=900))
+    for ff in (0, 1):
+        obs.append(Obligation(f"ph-reaches-titration-ff{ff}", h_ph_reaches_titration, dict(ff=ff), group="ph-flow", time_cap=900, max_paths=100000))
     return obs
 
 
